@@ -122,6 +122,7 @@ P = {
   technique="containment-only descent rule (control dependence / comprehension filters) + sibling-branch agreement"),
 "C11": dict(
   decided={
+    "C32.c": "a provider built from an RREL string and one built from a parsed grammar expression are configured alike: every read of the expression's flags (use_proxy, importURI) in create_rrel_scope_provider comes after the string was parsed",
     "C11.a": "find_object_with_path acceptance table: Postponed returned as is; accepted iff no name part remains and (no class or textx_isinstance); alternatives iterated in stored order, first hit; ReferenceProxy iff use_proxy",
     "C11.b": "every node class built by RRELVisitor defines the interface the evaluator calls",
     "C11.d": "navigation results: an object selected by name is returned with the path extended by it; a name part is consumed iff it selected the object",
@@ -250,6 +251,7 @@ P = {
     "C22.e": "every root wrapper built while rule parameters may be present receives them",
     "C22.f": "the ws escape translation covers \\n \\r \\t",
     "C22.g": "the comment model handed to the parser is refreshed after rule references are resolved",
+    "C22.i": "at least one wiring site hands the grammar's Comment rule to the parser under the sole condition that the grammar defines one (no dependence on skipws or on the kind of the current comment model)",
     "C22.c": "the skipws and ws options of the metamodel are forwarded to the model parser under their own names",
   },
   declined="invariance of the model under inserted whitespace/comments (Arpeggio)",
@@ -313,6 +315,7 @@ P = {
     "C28.b": "each raise site passes line, col and filename of the owner",
     "C28.c": "the location fields of one raise are assigned in the same loop iteration",
     "C28.d": "the resolver fills a provider error's location only where it has none",
+    "C28.e": "every scope-provider call of the resolver (attached, registered or default provider) lies inside the try whose TextXError handler fills line, col and filename from the reference and re-raises",
     "C08.c": "(shared with C08) every list reference carries the position of its own element, so its error is located at that element",
     "C06.c": "(shared with C06) the parsed text is the caller's text", "C06.d": "(shared with C06) position arithmetic is Arpeggio's",
   },
@@ -320,6 +323,7 @@ P = {
   technique="origin (ownership) dataflow + keyword coverage at raise sites"),
 "C29": dict(
   decided={
+    "C29.e": "dot_repr, which the taint rule treats as a sanitiser, returns in its string branch only text that went through dot_escape (whole or sliced), never the raw argument",
     "C29.a": "no model-derived text reaches a DOT/PlantUML write without passing an escaping function (taint with path atoms)",
     "C29.b": "dot_escape covers the record-label specials",
     "C29.c": "every model gets its nodes (empty own repository falls back to exporting the model); class boxes are not de-duplicated by short name",
@@ -344,7 +348,8 @@ P = {
   declined="nothing else",
   technique="obligation ledger over exceptional exits"),
 "C32": dict(
-  decided={"C32.a": "candidate key list is [Cls.attr, *.attr, Cls.*, *.*], scanned first-hit with default fallback; grammar RREL tested before the scan",
+  decided={
+    "C32.c": "a provider built from an RREL string and one built from a parsed grammar expression are configured alike: every read of the expression's flags (use_proxy, importURI) in create_rrel_scope_provider comes after the string was parsed","C32.a": "candidate key list is [Cls.attr, *.attr, Cls.*, *.*], scanned first-hit with default fallback; grammar RREL tested before the scan",
            "C32.b": "register_scope_providers converts string values with the constructor the grammar path uses"},
   declined="nothing material",
   technique="abstract string classification of the key list + loop shape"),
